@@ -57,6 +57,8 @@ inductive Nodes where
   | cons (n : Node) (ns : Nodes)
 end
 
+deriving instance DecidableEq for Node, Nodes
+
 def Node.key : Node → Key
   | .comp k _ => k
   | .pass k => k
@@ -242,11 +244,12 @@ structure Call where
 
 def pick (store : List Opt) (ixs : List Nat) : List Opt := ixs.filterMap (fun i => store[i]?)
 
-def storeAfter (F : Facts) (store : List Opt) (c : Call) : List Opt :=
-  (List.range store.length).filterMap (fun i =>
-    match store[i]? with
-    | none => none
-    | some o => some (if i ∈ c.ixs then afterCall F c.g o else o))
+def storeAfterAux (F : Facts) (c : Call) : Nat → List Opt → List Opt
+  | _, [] => []
+  | i, o :: os => (if i ∈ c.ixs then afterCall F c.g o else o) :: storeAfterAux F c (i + 1) os
+
+/-- The caller's store after call `c`: the Options the call was given may have been written. -/
+def storeAfter (F : Facts) (store : List Opt) (c : Call) : List Opt := storeAfterAux F c 0 store
 
 /-- A sequence of calls sharing the store; each call sees the store as the previous left it. -/
 def runCalls (F : Facts) : List Opt → List Call → List (Except RunErr (List Entry)) × List Opt
